@@ -48,6 +48,15 @@ Lanelets(rs)  == [k |-> "lanelets", rs |-> rs]                     \* lanelet go
 GS(t, p, o, v) == [t |-> t, pos |-> p, ori |-> o, vel |-> v]       \* one goal state
 KS(t, p, th, thint, v, vint) == [kind |-> "ks", t |-> t, p |-> p, th |-> th, thint |-> thint, v |-> v, vint |-> vint]
 PM(t, p, vx, vy)             == [kind |-> "pm", t |-> t, p |-> p, vx |-> vx, vy |-> vy]
+(* The state CLASS does not matter, only which attributes a state STORES: a state that stores an orientation (kind "ks")   *)
+(* is judged by it and by its stored velocity - also when it additionally stores or derives a lateral velocity `vy`        *)
+(* (MBState, ExtendedPMState, a custom state with orientation + velocity + velocity_y).  Only a state WITHOUT a stored     *)
+(* orientation but with velocity and velocity_y (kind "pm": PMState, custom state) is judged by atan2(vy, vx) and |v|.     *)
+(* `cls` names the library class the driver has to build; no operator of this module reads it.                            *)
+KSC(cls, t, p, th, v, vy) == [kind |-> "ks", t |-> t, p |-> p, th |-> th, thint |-> 0, v |-> v, vint |-> 0, cls |-> cls, vy |-> vy]
+PMC(cls, t, p, vx, vy)    == [kind |-> "pm", t |-> t, p |-> p, vx |-> vx, vy |-> vy, cls |-> cls]
+KsClasses == {"KSState", "STState", "ExtendedPMState", "MBState", "InitialState", "CustomOV", "CustomOVV"}
+PmClasses == {"PMState", "CustomVV"}
 
 Attrs == {"time", "position", "orientation", "velocity"}
 Con(g, a) == CASE a = "time" -> g.t [] a = "position" -> g.pos [] a = "orientation" -> g.ori [] a = "velocity" -> g.vel
@@ -113,15 +122,26 @@ RegionFz(c, p) == CASE c.k = "rect" -> IF InRectOpen(c.r, p) THEN "T" ELSE IF In
                          IF \E i \in 1..Len(c.rs) : InRectOpen(c.rs[i], p) THEN "T"
                          ELSE IF \E i \in 1..Len(c.rs) : InRect(c.rs[i], p) THEN "EITHER" ELSE "F"   \* also a shared edge: a gap may open
                     [] c.k = "mgroup" -> Any3({RegionFz(c.ms[i], p) : i \in 1..Len(c.ms)})
-SatVel(c, s) == IF s.kind = "pm"
-                THEN B3((c.lo <= 0 \/ c.lo * c.lo <= Speed2(s)) /\ (c.hi >= 0 /\ Speed2(s) <= c.hi * c.hi))  \* lo <= hypot <= hi
+(* A state that stores BOTH an orientation and a velocity_y (MBState: body-frame lateral velocity; custom state with      *)
+(* orientation + velocity + velocity_y) is neither a kinematic nor a point-mass state of the statement: for the            *)
+(* orientation and velocity constraints BOTH readings are accepted - stored orientation / stored velocity, or               *)
+(* atan2(vy, v) / hypot(v, vy) - i.e. the verdict is decided only where the two readings agree.  Time, position: exact.    *)
+StoresVy(s) == s.kind = "ks" /\ "cls" \in DOMAIN s /\ s.cls \in {"MBState", "CustomOVV"}
+Both(x, y)  == IF x = y THEN x ELSE "EITHER"
+InSpeed2(c, q2) == B3((c.lo <= 0 \/ c.lo * c.lo <= q2) /\ (c.hi >= 0 /\ q2 <= c.hi * c.hi))                 \* lo <= sqrt(q2) <= hi
+SatVel(c, s) == IF s.kind = "pm" THEN InSpeed2(c, Speed2(s))
+                ELSE IF StoresVy(s) THEN Both(B3(c.lo <= s.v /\ s.v <= c.hi), InSpeed2(c, s.v * s.v + s.vy * s.vy))
                 ELSE B3(c.lo <= s.v /\ s.v <= c.hi)
+SatTheta(c, th, fz) == IF "ori" \in fz THEN (IF OnEnd(c.a, c.b, th) THEN "EITHER" ELSE B3(AngleIn(c.a, c.b, th)))
+                       ELSE SatAngle(c.a, c.b, th)
+SatOri(c, s, fz) == IF StoresVy(s)
+                    THEN Both(SatTheta(c, s.th, fz), IF IsCompass(s.v, s.vy) THEN SatTheta(c, Heading(s.v, s.vy), fz) ELSE "EITHER")
+                    ELSE SatTheta(c, Theta(s), fz)
 SatF(a, g, s, fz) == LET c == Con(g, a) IN
                 IF c.k = "none" THEN "T"
                 ELSE CASE a = "time"        -> B3(c.lo <= s.t /\ s.t <= c.hi)
                        [] a = "position"    -> IF "pos" \in fz THEN RegionFz(c, s.p) ELSE B3(InRegion(c, s.p))
-                       [] a = "orientation" -> IF "ori" \in fz THEN (IF OnEnd(c.a, c.b, Theta(s)) THEN "EITHER" ELSE B3(AngleIn(c.a, c.b, Theta(s))))
-                                               ELSE SatAngle(c.a, c.b, Theta(s))
+                       [] a = "orientation" -> SatOri(c, s, fz)
                        [] a = "velocity"    -> SatVel(c, s)
 Sat(a, g, s)           == SatF(a, g, s, {})
 SatGSF(g, s, fz)       == All3({SatF(a, g, s, fz) : a \in Attrs})
@@ -209,7 +229,8 @@ LawNoConstraint(s)    == Reached(<<GS(NoC, NoC, NoC, NoC)>>, s) = "T"           
 LawAngleClosed(a, b, th) == AngleIn(a, b, th) <=> AngleLit(a, b, th)
 LawAngleTurn(a, b, th)   == AngleIn(a, b, th + Turn) <=> AngleIn(a, b, th)
 LawBandOnlyOnEnds(goal, s) == Reached(goal, s) = "EITHER" =>
-                                \E i \in DOMAIN goal : goal[i].ori.k = "ang" /\ OnEnd(goal[i].ori.a, goal[i].ori.b, Theta(s))
+                                \/ (StoresVy(s) /\ \E i \in DOMAIN goal : goal[i].ori.k # "none" \/ goal[i].vel.k # "none")
+                                \/ \E i \in DOMAIN goal : goal[i].ori.k = "ang" /\ OnEnd(goal[i].ori.a, goal[i].ori.b, Theta(s))
 (* rigid motions preserve membership: moving goal and state together changes nothing (exactly for q = 0, up to bands else) *)
 LawRigid(goal, s, m) == LET x == Reached(goal, s)  y == MovedReached(goal, m, MoveState(s, m)) IN
                         \/ (s.kind = "ks" /\ s.thint = 1 /\ Fz(m))                 \* the int 0 is not on the turned grid: excluded
@@ -218,6 +239,8 @@ LawRigid(goal, s, m) == LET x == Reached(goal, s)  y == MovedReached(goal, m, Mo
 (* a (nested) group is the union of its primitive members; a group of rectangles can be written either way *)
 LawFlatten(c, p)  == c.k = "mgroup" => (InRegion(c, p) <=> \E m \in Leaves(c) : InRegion(m, p))
 LawGroupKind(c, p) == c.k = "group" => (InRegion(c, p) <=> InRegion(MGroup([i \in 1..Len(c.rs) |-> Rect(c.rs[i])]), p))
+(* a DERIVED / unused lateral velocity never changes the verdict of a state that stores its orientation *)
+LawStoredOrientation(goal, s) == (s.kind = "ks" /\ ~StoresVy(s)) => \A w \in {-2, 0, 3} : Reached(goal, s @@ [vy |-> w]) = Reached(goal, [vy |-> w] @@ s)
 LawHeading == \A i \in 1..Len(Dirs) : \A m \in 1..2 :
                  LET v == Dirs[i].d IN Heading(m * v[1], m * v[2]) = Dirs[i].h /\ IsCompass(m * v[1], m * v[2])
 =================================================================================
